@@ -22,6 +22,11 @@ func (r *FragRule) RunPass(ctx *Context, pass Pass) {
 
 		hasDiscard := false
 		hasEmit := false
+
+		// The state machine stops interpreting a rule's actions when it reaches
+		// @emit or @discard. That action goes last, so that the mode actions
+		// written after it take effect too.
+		var final mode.Action
 		for _, actAST := range r.Actions {
 			act := actAST.GetAction()
 			switch act.Type {
@@ -33,6 +38,8 @@ func (r *FragRule) RunPass(ctx *Context, pass Pass) {
 					return
 				}
 				hasDiscard = true
+				final = act
+				continue
 			case mode.ActionAccept:
 				if hasEmit {
 					ctx.Errs.Errorf(
@@ -41,15 +48,18 @@ func (r *FragRule) RunPass(ctx *Context, pass Pass) {
 					return
 				}
 				hasEmit = true
+				final = act
+				continue
 			}
 			actions.Actions = append(actions.Actions, act)
 		}
 
 		if !hasDiscard && !hasEmit {
-			actions.Actions = append(actions.Actions, mode.Action{
+			final = mode.Action{
 				Type: mode.ActionAccum,
-			})
+			}
 		}
+		actions.Actions = append(actions.Actions, final)
 
 		if hasDiscard && hasEmit {
 			ctx.Errs.Errorf(
